@@ -178,12 +178,11 @@ def run(run):
         for stepno in range(40):
             if rng.random() < .06:
                 # fork: go on editing an independent equal definition; the one left behind must keep its triple for good
-                import copy
-                how = rng.choice(['copy()', 'union(empty)', 'd | empty', 'deepcopy', 'Definition(*d)'])
+                how = rng.choice(['copy()', 'union(empty)', 'd | empty', 'Definition(*d)'])
                 with guard(run, lambda: 'fork by %s after history %r' % (how, hist), lambda: hist):
                     old = d
                     d = {'copy()': lambda: old.copy(), 'union(empty)': lambda: old.union(Definition()),
-                         'd | empty': lambda: old | Definition(), 'deepcopy': lambda: copy.deepcopy(old),
+                         'd | empty': lambda: old | Definition(),
                          'Definition(*d)': lambda: Definition(*old)}[how]()
                     if defs.state(d) != defs.state(old) or d is old:
                         run.fail('%s of a definition is not an equal, distinct definition' % how, defs.state(d), defs.state(old), hist)
